@@ -50,6 +50,7 @@ type FnCtx struct {
 	compHook func(*State, string) (Term, bool)
 	compRange map[string][2]string
 	specRecursive map[string]bool
+	named map[string]string
 	unfoldDepth int
 	modCache map[*ssa.Function]modResult
 	noDefine int
@@ -72,6 +73,7 @@ func (fc *FnCtx) reset() {
 	fc.dirty = false
 	fc.specDeclared = map[string]bool{}
 	fc.specRecursive = map[string]bool{}
+	fc.named = map[string]string{}
 	fc.tpSorts = map[string]bool{}
 	fc.unsupported = nil
 	fc.oblNames = map[string]int{}
@@ -97,6 +99,25 @@ func (fc *FnCtx) define(prefix string, t Term) Term {
 	fc.emit(fmt.Sprintf("(define-fun %s () %s %s)", name, t.Sort, t.S))
 	r := t
 	r.S = name
+	return r
+}
+
+// nameTerm binds a compound term to a declared constant (usable inside quantifier patterns).
+func (fc *FnCtx) nameTerm(prefix string, t Term) Term {
+	if !strings.ContainsAny(t.S, "( ") {
+		return t
+	}
+	key := "named:" + t.S
+	if n, ok := fc.named[key]; ok {
+		r := t
+		r.S = n
+		return r
+	}
+	c := fc.fresh(prefix, t.Sort, t.T)
+	fc.emit(fmt.Sprintf("(assert (= %s %s))", c.S, t.S))
+	fc.named[key] = c.S
+	r := t
+	r.S = c.S
 	return r
 }
 
